@@ -34,7 +34,7 @@ impl TypeChecker {
     }
 
     /// Validate method call arguments against a method signature.
-    fn validate_method_call_args(
+    pub(in crate::frontend::typechecker::check_expr) fn validate_method_call_args(
         &mut self,
         params: &[(String, ResolvedType)],
         args: &[CallArg],
